@@ -279,8 +279,8 @@ BRANCH_LINES = {
     311: "ponding partly covers EsPot", 328: "stage 1 entered", 337: "stage 1: partial compartment factor", 348: "stage 1: AvW < 0 clamp",
     352: "stage 1: compartment satisfies demand", 361: "stage 1: compartment exhausted", 375: "stage 1: Wsurf reset to 0",
     380: "stage 1: prepare stage 2 (Wstage2)", 390: "stage 1: Wstage2 < 0 clamp", 396: "stage 2 entered", 420: "stage 2: layer expanded by 1 mm",
-    440: "Kr > 1 clamp", 455: "stage 2: partial compartment factor", 467: "stage 2: compartment satisfies demand",
-    476: "stage 2: compartment exhausted",
+    440: "Kr > 1 clamp", 455: "stage 2: partial compartment factor", 466: "stage 2: AvW < 0 clamp (commit 4d991b1)",
+    470: "stage 2: compartment satisfies demand", 479: "stage 2: compartment exhausted",
 }
 
 
